@@ -6,7 +6,7 @@ from typing import Any
 from vmc.checks.common import replay_program, run_programs
 from vmc.engine import Action, gate, make_step, make_workflow, stream_repr, task_outcome
 from vmc.events import A, Done, MyStop, Prog, Work
-from vmc.progs import ENGINE_ASSUMPTIONS, Oracle, Spec, to_programs, wf_chain, wf_fan
+from vmc.progs import ENGINE_ASSUMPTIONS, Oracle, Spec, to_programs, wf_chain, wf_early_stop, wf_fan
 from workflows import catch_error
 from workflows.errors import WorkflowCancelledByUser, WorkflowTimeoutError
 from workflows.events import (
@@ -41,10 +41,13 @@ def final(h: Any, e: Any, state: dict[str, Any]) -> None:
         kind = "timeout"
     else:
         kind = "failure"
-    terminals = [ev for ev in h.published if isinstance(ev, StopEvent)]
+    # (a resumed / continued run is judged on what it published itself)
+    marks = getattr(h, "restart_marks", [])
+    pub = h.published[marks[-1]:] if marks else h.published
+    terminals = [ev for ev in pub if isinstance(ev, StopEvent)]
     after = []
     seen_terminal = False
-    for ev in h.published:
+    for ev in pub:
         if seen_terminal:
             after.append(ev)
         if isinstance(ev, StopEvent):
@@ -58,7 +61,7 @@ def final(h: Any, e: Any, state: dict[str, Any]) -> None:
     if len(terminals) != 1:
         h.violate("terminal_event_count", {**w, "outcome": kind, "n": len(terminals), "exc": exc_name},
                   f"outcome {kind} ({out[1]!r}) but {len(terminals)} terminal events published: "
-                  f"{stream_repr(h.published, False)}")
+                  f"{stream_repr(pub, False)}")
     else:
         t = terminals[0]
         ok = isinstance(t, want) and (kind != "result" or not isinstance(t, TERMINAL_OTHER))
@@ -275,6 +278,16 @@ def specs(tier: str) -> list[Spec]:
         Spec("timeout_vs_cancel", {"cause": "timeout_vs_cancel"}, lambda: wf_chain(1), scripts=cancel_script,
              wf_kw={"timeout": 10.0}),
         Spec("timeout_during_retry_delay", {"cause": "timeout"}, lambda: wf_raise(pol3()), wf_kw={"timeout": 10.0}),
+        # second and later runs of one context: a run continued from a finished run's context, a run resumed from a snapshot
+        Spec("continued_run", {"cause": "normal_stop", "history": "continued"}, lambda: wf_early_stop(2, 1), continue_runs=1,
+             max_dev=(3 if tier == "quick" else 5)),
+        Spec("continued_run_cancel", {"cause": "cancel", "history": "continued"}, lambda: wf_early_stop(2, 2), continue_runs=1,
+             scripts=cancel_script, max_dev=(3 if tier == "quick" else 5)),
+        Spec("resumed_run", {"cause": "normal_stop", "history": "resumed"}, lambda: wf_chain(2), resume=True),
+        Spec("resumed_run_cancel", {"cause": "cancel", "history": "resumed"}, lambda: wf_fan(2, 2), resume=True, scripts=cancel_script,
+             max_dev=(3 if tier == "quick" else 5)),
+        Spec("resumed_run_timeout", {"cause": "timeout", "history": "resumed"}, lambda: wf_chain(2), resume=True, wf_kw={"timeout": 10.0},
+             max_dev=(3 if tier == "quick" else 5)),
     ]
     if tier != "quick":
         sp += [
